@@ -127,8 +127,10 @@ namespace Pistache::Tcp
                 if (!isRaw())
                     return BufferHolder(_fd, size_, offset);
 
-                auto detached = _raw.copy(offset);
-                return BufferHolder(detached);
+                // Keep the whole buffer and remember how much of it is already
+                // written (as for files): when the write completes its promise is
+                // fulfilled with the total, not with the length of the last part
+                return BufferHolder(_raw, static_cast<off_t>(offset));
             }
 
         private:
